@@ -7,6 +7,7 @@ import (
 	"go/token"
 	"go/types"
 	"math/big"
+	"strings"
 
 	"golang.org/x/tools/go/ssa"
 )
@@ -120,6 +121,28 @@ func (fr *Frame) execInstr(st *State, in ssa.Instruction) {
 		fr.vals[x] = ptrVal(x.Type(), c.fieldAddr(p, st0, x.Field))
 	case *ssa.Field:
 		v := fr.get(st, x.X)
+		if v.K != VStruct && isOpaque(x.X.Type()) {
+			// field of an opaque token (reflect.StructField.Name ...): an uninterpreted function of the
+			// token, nameable in contracts as the spec function <Type>_<Field>(token)
+			ft := x.Type()
+			fname := x.X.Type().Underlying().(*types.Struct).Field(x.Field).Name()
+			tn := shortTypeKey(x.X.Type())
+			tn = tn[strings.LastIndex(tn, ".")+1:]
+			if len(comps(ft)) == 1 && comps(ft)[0].sort == SInt {
+				r := scalar(ft, App("spec."+tn+"_"+fname, SInt, v.X))
+				if isStringType(ft) {
+					c.addFact(st, And(Le(Num(0), SLen(r.X)), Le(SLen(r.X), Num(1<<40))))
+				}
+				fr.vals[x] = r
+				return
+			}
+			nv, facts := freshVal(ft, "of."+fname)
+			for _, f := range facts {
+				c.addFact(st, f)
+			}
+			fr.vals[x] = nv
+			return
+		}
 		fr.vals[x] = v.Fs[x.Field]
 	case *ssa.IndexAddr:
 		base := fr.get(st, x.X)
